@@ -5,6 +5,7 @@
 //!   l21h oracle <PROP>                 -> reads case lines, evaluates the property itself on the real code:
 //!                                         `pass` | `na` | `fail <what>` per line
 //!   l21h tags <PROP>                   -> reads case lines, prints a coverage tag per line (for the histogram)
+mod gdsio;
 mod ops;
 mod props;
 mod rng;
